@@ -175,10 +175,40 @@ def k_parse(P, template, names, order):
         if best is not None and (best.one_of or best.any_of):
             members = [_kind(m, names, sanitized) for m in (best.one_of or best.any_of)]
         out.append((len(hits), props, req, _shape(best), members))
+    if template in NAMING_TEMPLATES:
+        # the class / module names the REAL ModelsEmitter assigns to what was parsed (file writing stubbed)
+        _assign_names(P, ctx.parsed_schemas)
+        for i, nm in enumerate(names):
+            reg = [v for k, v in ctx.parsed_schemas.items() if _eqs(k, nm) or _eqs(k, sanitized[i])]
+            rivals = sum(1 for k in ctx.parsed_schemas.keys() if _eqs(san(k), sanitized[i]))
+            got = (reg[0].generation_name, reg[0].final_module_stem) if len(reg) == 1 else None
+            out[i] = out[i] + ((got, sanitized[i], rivals),)
     u = ctx.unified_cycle_context
     states = sorted(str(getattr(s, "value", s)) for s in u.schema_states.values())
     rest = (u.recursion_depth, len(u.schema_stack), states.count("in_progress"), states.count("not_started"))
     return (out, rest)
+
+
+NAMING_TEMPLATES = ("oneof", "anyof_of_oneof", "allof")
+
+
+def _assign_names(P, schemas):
+    import shutil
+    import tempfile
+
+    from props import c20
+
+    me = import_module(P.__name__ + ".emitters.models_emitter")
+    rc = import_module(P.__name__ + ".context.render_context")
+    root = tempfile.mkdtemp(prefix="c02n_", dir=c20._workdir())
+    try:
+        ctx = rc.RenderContext(core_package_name="core", package_root_for_generated_code=root, overall_project_root=root)
+        em = me.ModelsEmitter(ctx, schemas)
+        em._generate_model_file = lambda schema_ir, models_dir: None
+        em._generate_init_py_content = lambda: ""
+        em.emit(P.IRSpec(title="t", version="1", schemas=schemas, operations=[], servers=[]), root)
+    finally:
+        shutil.rmtree(root, ignore_errors=True)
 
 
 def _pairs(template, names):
@@ -240,6 +270,12 @@ def mk_names(e, template, lens, tokens):
     return names
 
 
+def _sn(x):
+    if isinstance(x, (tuple, list)):
+        return tuple(_sn(v) for v in x)
+    return _s(x) if x is not None and not isinstance(x, int) else x
+
+
 class Fidelity(Obligation):
     functions = ["pyopenapi_gen.core.loader.schemas.extractor:build_schemas", "pyopenapi_gen.core.parsing.schema_parser:_parse_schema",
                  "pyopenapi_gen.core.parsing.schema_parser:_parse_properties", "pyopenapi_gen.core.parsing.schema_parser:_resolve_ref",
@@ -291,7 +327,7 @@ class Fidelity(Obligation):
     def normalise(self, r):
         if isinstance(r, tuple):
             out, rest = r
-            return ([(c, {(_s(k)): v for k, v in p.items()}, [_s(x) for x in q], sh, mem) for c, p, q, sh, mem in out], rest)
+            return ([(c, {(_s(k)): v for k, v in p.items()}, [_s(x) for x in q], sh, mem) + tuple(_sn(x) for x in more) for c, p, q, sh, mem, *more in out], rest)
         return r
 
     def verdict(self, inp, r):
@@ -301,9 +337,13 @@ class Fidelity(Obligation):
             return False, "loading raised %r" % (r,)
         out, rest = r
         _, _, want_props, want_req = TEMPLATES[self.template]
-        for i, (count, props, req, shape, members) in enumerate(out):
+        for i, (count, props, req, shape, members, *more) in enumerate(out):
             if count != 1:
                 return False, "schema #%d is registered %d times" % (i, count)
+            if more:
+                got, want, rivals = more[0]
+                if got is None or got[0] is None or got[1] is None or (rivals == 1 and not _eqs(got[0], want)):
+                    return False, "schema #%d is emitted as class/module %r although nothing else in the document is named like it (expected class %r)" % (i, _sn(got), _sn(want))
             if want_props[i] is None or isinstance(want_props[i], tuple):
                 if shape != "union":
                     return False, "schema #%d (a oneOf/anyOf union) came out as %r" % (i, shape)
